@@ -21,10 +21,17 @@ def cfgs_with_san(tier, inc):
 PROPS = {
     "C01": {"id": "C01", "source": "c01.cpp", "files": INT_VEC_FILES, "min_configs": {"quick": 8, "thorough": 30},
             "configs": cfgs_with_san, "ub_is_violation": True, "digest_binding": True},
+    "C04": {"id": "C04", "source": "c04.cpp", "files": INT_VEC_FILES + SCALAR_FILES[:8], "min_configs": {"quick": 8, "thorough": 30},
+            "configs": cfgs_with_san, "ub_is_violation": True},
     "C02": {"id": "C02", "source": "c02.cpp", "files": INT_VEC_FILES + FLT_VEC_FILES, "min_configs": {"quick": 8, "thorough": 30}, "digest_binding": True},
 }
 
 MANIFEST_TEXT = {
+    "C04": {
+        "technique": "property-based testing: enumerated values x every amount 0..bits / rotation amounts (all 8-bit values quick, all 16-bit thorough) + rapidcheck, bit-level shift/rotate oracle and metamorphic relations, per build configuration",
+        "level": "Generated-input search over lane values x amounts for 25 operation forms (bitwise, shifts by scalar / per-lane vector / compile-time amount, rotations by scalar / per-lane / compile-time amount incl. negative and beyond-width amounts, scalar rotl/rotr) on every integer vector type and configuration; per-lane forms carry a different amount in every lane with all amounts visiting all lanes; oracle = shifts on the unsigned image with explicit full-width and sign-fill cases; relations rotl(rotr(x,s),s)==x, (x<<k)>>k==x&lowmask, x<<bits==0; UBSan trap mode on the width-1/scalar forms ('is defined' for 0..bits).",
+        "note": "Trusted: harness oracle, host CPU, compilers. Exhaustive for 8-bit (quick) and 16-bit (thorough) values x all amounts; 32/64-bit values from the boundary lattice + random. Shift amounts outside 0..bits are documented as unspecified and are not generated for shifts.",
+    },
     "C01": {
         "technique": "property-based testing: enumerated (all 8-bit pairs, lattice cross products; all 16-bit pairs in thorough) + rapidcheck operand pairs against modular-arithmetic oracle and metamorphic relations, per build configuration; UBSan trap mode turns undefined behaviour into a failing Case",
         "level": "Generated-input search over operand pairs x 11 operator forms x every integer vector type x every configuration of the #if-arm cover (quick) / macro lattice x compilers x standards (thorough); oracle = arithmetic modulo 2^bits on wider unsigned types plus relations ((a+b)-b==a, a*b==b*a, a*2^k==a<<k, -a==0-a); lane independence by heterogeneous neighbours and one-hot lanes; 'never undefined' by clang/gcc -fsanitize=undefined in trap mode on the width-1 code; cross-configuration output digests must agree.",
